@@ -283,51 +283,69 @@ func (e *Engine) solveOne(o *Oblig, dir, base string, timeoutS int) {
 			}
 			res.Raw = trunc(out, 2000)
 		}
+		if res.Status == "unknown" && o.Expect != "sat" && o.Expect != "sat-soft" {
+			if ms, solver, ok := e.branchSplit(o, dir, fmt.Sprintf("%s_%d", base, ci), cs, timeoutS, terms); ms >= 0 {
+				total += ms
+				if ok {
+					res.Status = "proved"
+					res.Solver = solver
+					res.Model, res.Input, res.Raw = nil, nil, ""
+				}
+			}
+		}
 		if res.Status != "proved" {
 			break
 		}
 	}
-	// opt-in tactic (`branch-split`): an undecided obligation is retried under each branch literal of the ifs executed
-	// before it, once with the literal and once with its negation; both must be proved. Nothing is assumed.
-	if res.Status == "unknown" && o.Expect != "sat" && o.Expect != "sat-soft" && len(o.Split) == 0 {
-		if ct := e.contracts[o.ctx.fn]; ct != nil && ct.BranchSplit {
-			var lits []string
-			for _, d := range o.ctx.decls[:o.NDecl] {
-				f := strings.Fields(d)
-				if len(f) > 1 && strings.HasPrefix(f[1], "pc.then!") {
-					lits = append(lits, f[1])
-				}
-			}
-			if len(lits) > 6 {
-				lits = lits[len(lits)-6:]
-			}
-			short := timeoutS
-			if short > 5 {
-				short = 5
-			}
-			for li := len(lits) - 1; li >= 0; li-- {
-				l := lits[li]
-				okBoth := true
-				for ci, cs := range []string{l, tNot(l)} {
-					text := e.smtText(o, "", cs)
-					ans, solver, _, ms, _ := runQuery(dir, fmt.Sprintf("%s_bs%d_%d", base, li, ci), text, short, terms)
-					total += ms
-					if ans != "unsat" {
-						okBoth = false
-						break
-					}
-					res.Solver = solver
-				}
-				if okBoth {
-					res.Status = "proved"
-					res.Solver += " branch-split(" + l + ")"
-					res.Model, res.Input, res.Raw = nil, nil, ""
-					break
-				}
-			}
+	res.Ms = total
+}
+
+// branchSplit is the opt-in tactic `branch-split`: an obligation (or one case of it) the solvers leave undecided is
+// retried under each branch literal of the ifs executed before it, once with the literal and once with its negation;
+// both must be proved. Pure proof search: nothing is assumed. Returns ms < 0 when the tactic does not apply.
+func (e *Engine) branchSplit(o *Oblig, dir, base, cs string, timeoutS int, terms []string) (int64, string, bool) {
+	ct := e.contracts[o.ctx.fn]
+	if ct == nil || !ct.BranchSplit {
+		return -1, "", false
+	}
+	var lits []string
+	for _, d := range o.ctx.decls[:o.NDecl] {
+		f := strings.Fields(d)
+		if len(f) > 1 && strings.HasPrefix(f[1], "pc.then!") {
+			lits = append(lits, f[1])
 		}
 	}
-	res.Ms = total
+	if len(lits) > 6 {
+		lits = lits[len(lits)-6:]
+	}
+	short := timeoutS
+	if short > 5 {
+		short = 5
+	}
+	var total int64
+	for li := len(lits) - 1; li >= 0; li-- {
+		l := lits[li]
+		okBoth := true
+		solver := ""
+		for ci, lit := range []string{l, tNot(l)} {
+			extra := lit
+			if cs != "" {
+				extra = tAnd(cs, lit)
+			}
+			text := e.smtText(o, "", extra)
+			ans, sv, _, ms, _ := runQuery(dir, fmt.Sprintf("%s_bs%d_%d", base, li, ci), text, short, terms)
+			total += ms
+			if ans != "unsat" {
+				okBoth = false
+				break
+			}
+			solver = sv
+		}
+		if okBoth {
+			return total, solver + " branch-split(" + l + ")", true
+		}
+	}
+	return total, "", false
 }
 
 func trunc(s string, n int) string {
